@@ -76,6 +76,11 @@ def _alphabet(w):
         # as the 16th program, but the LOWER-numbered worker brings the worse value (the preempted worker of a pair is
         # always worker 1: derived state such as the best-trial cache must not depend on who is interrupted)
         [{"a": "create_trial", "s": 1, "tm": {"has": 0}}, {"a": "set_state", "t": "own", "state": "COMPLETE", "values": [3 - w]}],
+        # a worker that lists the study and finishes the trial ANOTHER worker is still creating ("next" = the id the next
+        # create call will get), then lists again: a creator that comes back with its stale copy must not undo it in a cache
+        [{"a": "get_all_trials", "s": 1, "states": ["ALL"], "dc": 1, "as_list": 0},
+         {"a": "set_state", "t": "next", "state": "COMPLETE", "values": [w]},
+         {"a": "get_all_trials", "s": 1, "states": ["ALL"], "dc": 1, "as_list": 0}],
     ]
 
 
@@ -86,10 +91,13 @@ def priority_pairs(kind):
     multi = [i for i, p in enumerate(al) if len(p) == 2 and not p[0]["a"].startswith("create")]
     pairs = [(r, m) for r in readers for m in multi]
     if kind == "cached_rdb_threads":
-        return pairs[:2]
+        nxt = [i for i, p in enumerate(al) if any(o.get("t") == "next" for o in p)]
+        return pairs[:2] + [(0, n) for n in nxt]
     # two workers finishing their own trials with better-than-best values: every preemption point as well
     fin = [i for i, p in enumerate(al) if len(p) == 2 and p[1]["a"] == "set_state" and p[1]["t"] == "own"]
-    return pairs + [(a, b) for a in fin for b in fin]
+    nxt = [i for i, p in enumerate(al) if any(o.get("t") == "next" for o in p)]
+    creators = [i for i, p in enumerate(al) if p[0]["a"] == "create_trial" and p[0]["tm"] == {"has": 0}]
+    return pairs + [(a, b) for a in fin for b in fin] + [(c, n) for c in creators[:2] for n in nxt]
 
 
 _CLOSERS = []
@@ -293,6 +301,8 @@ def execute(kind, programs, choose_factory, sched=None, group=None, files=None):
                 op = dict(op)
                 if op.get("t") == "own":
                     op["t"] = ("raw", own)
+                if op.get("t") == "next":
+                    op["t"] = ("raw", max(shared[1]) + 1)
                 rec = ["start", w, op, None]
                 sched.event(rec)
                 ret, raw = call_raw(rp, op)
@@ -455,6 +465,8 @@ def _proc_body(kind, path, storage, maps, w, prog, q):
         op = dict(op)
         if op.get("t") == "own":
             op["t"] = ("raw", own)
+        if op.get("t") == "next":
+            op["t"] = ("raw", max(maps[1]) + 1)
         t0 = time.monotonic_ns()
         ret, raw = call_raw(rp, op)
         t1 = time.monotonic_ns()
